@@ -6,7 +6,7 @@ ROOT = os.path.dirname(os.path.dirname(os.path.abspath(__file__)))
 MODES = {
     "C01": ["adf"], "C02": ["adf"], "C03": ["adf"], "C05": ["adf"], "C09": ["adf"],
     "C06": ["bdd", "persist"], "C07": ["bdd"], "C11": ["bdd", "adf"], "C13": ["bdd"], "C14": ["persist", "bdd"],
-    "C18": ["ng"], "C19": ["mirror"], "C20": ["iters"], "C04": ["c04"],
+    "C18": ["ng"], "C19": ["mirror"], "C20": ["iters"], "C04": ["c04"], "C10": ["c10"],
     # C12: the diagram-level oracle (truth tables, path / depth / model / dependency references) against builds of the crate
     # under non-default feature sets; "mode@cfg" selects the build
     "C12": ["bdd@c_n", "bdd@c_pm"],
@@ -50,7 +50,7 @@ def run_modes(repo, modes, seed, budget=300, timeout=180, want=None):
             notes.append(f"replay harness does not build against this tree ({cfg or 'default features'}): " + err[-300:])
             continue
         # the oracles are cheap (bdd: 0.1 s per 6000 rounds, adf: 0.4 s per 300 ADFs): several seeds, many rounds
-        seeds, bud = ((range(seed, seed + 8), max(budget, 3000)) if m in ("bdd", "c04") else (range(seed, seed + 4), max(budget, 1000)) if m == "adf" else ((seed, seed + 1), budget))
+        seeds, bud = ((range(seed, seed + 8), max(budget, 3000)) if m in ("bdd", "c04") else (range(seed, seed + 4), max(budget, 1500)) if m == "c10" else (range(seed, seed + 4), max(budget, 1000)) if m == "adf" else ((seed, seed + 1), budget))
         for s in seeds:
             key = (repo, cfg, m, s, bud)
             if key not in _cache:
